@@ -209,6 +209,12 @@ func ApplyFSFault(root string, tree []TreeEntry, f *FSFault) (restore func() err
 		err = os.WriteFile(p, fillBytes(0x1234567, 700), 0o600)
 	case "empty":
 		err = os.WriteFile(p, nil, 0o600)
+	case "eio":
+		// a file that opens but whose read(2) fails with EIO, in-process and
+		// without hooks: /proc/self/mem read at offset 0
+		if err = os.RemoveAll(p); err == nil {
+			err = os.Symlink("/proc/self/mem", p)
+		}
 	default:
 		err = fmt.Errorf("unknown fs fault %q", f.Kind)
 	}
